@@ -1198,6 +1198,19 @@ def model_float(m, t):
     return float(model_num(m, t))
 
 
+def model_vals(m, names):
+    """{name: float} for the real constants `names` under model m (for replays that take their inputs from the model)"""
+    out = {}
+    if m is None:
+        return out
+    for n in names:
+        try:
+            out[n] = model_float(m, z3.Real(n))
+        except Exception:
+            pass
+    return out
+
+
 def uf_table(m, f):
     """FuncInterp of a unary/binary real UF -> (list of (args, value), else)"""
     if not any(d.eq(f) for d in m.decls()):
